@@ -58,6 +58,36 @@ def _dict_writes(fa: FA, var=None):
     return keys
 
 
+def check_base_dir_final_before_use(ck, R):
+    """`base_dir` follows the same precedence as every other option (argument over configuration), and the relative
+    cluster / repository files are resolved against the value that results: no assignment to self.base_dir can
+    follow a _load_config(self.base_dir, ...) in the constructors."""
+    for q in ("configuration.ConfigurationRepository.__init__", "configuration.Environment.__init__"):
+        fa = FA(ck, q)
+        loads = [c for c in fa.calls("_load_config") if c.args and "self.base_dir" in fa.xnorm(c.args[0])]
+        stores = [s for s in fa.stmts(ast.Assign) if any(A.dotted(t) == "self.base_dir" for t in s.targets)]
+        ck.need(loads and stores, "%s: _load_config(self.base_dir, ...) / self.base_dir assignment not found" % q)
+        late = []
+        for c in loads:
+            for i in fa.nodes(c):
+                r = fa.cfg.reach([i], include_start=False)
+                for s_ in stores:
+                    if not (set(fa.nodes(s_)) & r):
+                        continue
+                    # harmless if the same value was already stored, under the same guard, before the load
+                    g_ = fa.enclosing(s_, ast.If)
+                    twin = [e_ for e_ in stores if e_ is not s_ and A.norm(e_.value) == A.norm(s_.value)
+                            and A.norm(getattr(fa.enclosing(e_, ast.If), "test", None)) == A.norm(getattr(g_, "test", None))
+                            and all(fa.cfg.must_pass(fa.nodes(fa.enclosing(e_, ast.If).test if fa.enclosing(e_, ast.If) is not None else e_), i2) for i2 in fa.nodes(c))]
+                    if not twin:
+                        late.append(s_)
+        ck.ob(R, fa.key(None, "base-dir-final-before-use"), not late,
+              "relative files are loaded against the final base_dir" if not late else
+              "`%s` runs after relative files were already loaded with self.base_dir: an explicit base_dir argument does not apply to the files the "
+              "constructor itself loads (they are looked up under the configuration's base_dir, or not found at all)" % A.short(late[0], 50),
+              fa.where(late[0]) if late else fa.where())
+
+
 def check_config_not_mutated(ck, R):
     """A configuration object is the caller's: the same dict is handed to several constructors (the storage
     section of a cluster, a template reused for two backends).  A constructor that writes an explicit argument
@@ -94,6 +124,7 @@ def check(ck):
     ck.run(check_new_memo_tables, ck, "C18.M1", ('configuration', 'storage', 'storage_filesystem', 'storage_memory'))
     ck.rule("C18.R5", "constructors never modify the configuration object they are given", 4)
     ck.run(check_config_not_mutated, ck, "C18.R5")
+    ck.run(check_base_dir_final_before_use, ck, "C18.R2")
     R1, R2, R3, R4 = ("C18.R%d" % i for i in range(1, 5))
     ck.rule(R1, "option tables: every documented backend option is read from the configuration and written by to_dict; "
                 "every constructor keyword has a documented key; cluster / repository / environment read and dump the same keys", 10)
